@@ -442,6 +442,8 @@ func c17Gen(g *G) {
 	c17TwoGen(g, code)
 	// identity of the errors handed out: sequences of replies with every earlier error held (c17ident.go)
 	c17IdentGen(g)
+	// the migration while the old data centre hangs up: two goroutines replace the connection (c17race.go)
+	c17RaceGen(g)
 	c17HistGen(g, code)
 	c17MigGen(g, code)
 	c17CallGen(g, code)
